@@ -67,13 +67,16 @@ def run(tier, seed):
     n = 40 if tier == "quick" else 500
     progs = (common.gen_programs(n // 2, seed, vars=3) +
              common.gen_programs(n // 4, seed + 3, vars=3, lists=1.0, random=1.0, shuffles=1.0) +
-             common.gen_programs(n // 4, seed + 4, vars=3, externals=1.0, threads=1.5, tunnels=1.5, fallback=1.5))
+             common.gen_programs(n // 4, seed + 4, vars=3, externals=1.0, threads=1.5, tunnels=1.5, fallback=1.5) +
+             # choices left pending by a conditional block while threads and tunnels print further lines: a save in between
+             # has several live threads and an older thread's choice
+             common.gen_programs(n // 3, seed + 6, vars=2, threads=2.5, tunnels=1.5, choices=2.5))
     corpus = common.corpus_programs()
     if tier == "quick":
         random.Random(seed).shuffle(corpus)
         corpus = corpus[:24]
     progs += [c for c in corpus if "TheIntercept" not in c["id"]]
-    return runner.run_relational(
+    nviol = runner.run_relational(
         "C02", progs, Build(tier, seed), tier, seed, "model_checking",
         rule="generated programs (lists, RANDOM, shuffles, externals, threads, tunnels, fallback choices) and corpus "
              "stories x explored path x save point at every boundary x load into a fresh twin and/or the same story x "
@@ -82,3 +85,7 @@ def run(tier, seed):
         case_kw=dict(cmp=["can", "text", "tags", "choices", "vars", "visits", "save"]),
         assumptions=["compared after a load: can_continue, text, tags, choices, globals, visit counts and the save document "
                      "(error and warning lists are not part of a save)", "a twin is constructed from the same compiled document and given the same registrations"])
+    # the same property against the executable model of the host interface (absolute oracle, Tier-S programs)
+    import hostmodel
+    nviol += hostmodel.check("C02", "save", tier, seed)
+    return nviol
